@@ -265,13 +265,16 @@ func checkSchemeKinds(c *Ctx, gen *packages.Package) {
 	c.Check(okID, rule, "generator.gatherSecuritySchemes › ID is the definition's key", c.posOf(gen, fd.Pos()), "ID: <range key>", "the scheme ID is not the key under which the spec defines it: requirements naming the scheme find no authenticator")
 }
 
-var adapterRx = regexp.MustCompile(`func\(([^)]*)\) \(interface\{\}, error\) \{\s*return\s*⟦\.ReceiverName⟧\.⟦pascalize \.ID⟧Auth\(([^)]*)\)`)
+var adapterRx = regexp.MustCompile(`func\(([^)]*)\) \(interface\{\}, error\) \{`)
+var adapterCallRx = regexp.MustCompile(`⟦\.ReceiverName⟧\.⟦pascalize \.ID⟧Auth\(([^)]*)\)`)
 
 // checkAdapterArgs: the adapter closures of AuthenticatorsFor hand their own parameters to the
-// scheme's function in the order they receive them (user before password, token before scopes).
+// scheme's function in the order they receive them (user before password, token before scopes),
+// and — when the principal is a pointer — never wrap a nil pointer into a non-nil interface{}
+// (for the runtime a nil principal means "not authenticated").
 func checkAdapterArgs(c *Ctx, ev *tmpl.Evaluator) {
 	rule := "C06.R2.adapter-args"
-	c.Rule(rule, "the authenticator adapter closures pass their parameters on unchanged and in order", 3)
+	c.Rule(rule, "the authenticator adapter closures pass their parameters on unchanged and in order; with a pointer principal they return nil (not a typed nil) when the authenticator returned no principal", 6)
 	l := linearOf(c, ev, "serverBuilder")
 	if l == nil {
 		c.Anchor(rule, "template serverBuilder", "not found")
@@ -280,19 +283,54 @@ func checkAdapterArgs(c *Ctx, ev *tmpl.Evaluator) {
 	k := 0
 	for _, oc := range l.Find(adapterRx) {
 		k++
-		var params, args []string
+		var params []string
 		for _, piece := range strings.Split(oc.Match[1], ",") {
 			f := strings.Fields(piece)
 			if len(f) > 0 {
 				params = append(params, f[0])
 			}
 		}
-		for _, a := range strings.Split(oc.Match[2], ",") {
-			args = append(args, strings.TrimSpace(a))
+		end := -1
+		if loc := regexp.MustCompile(`\}(?:⟦[^⟧]*⟧\.⟦[^⟧]*⟧Auth)?\)`).FindStringIndex(l.Text[oc.End:]); loc != nil {
+			end = loc[0]
 		}
-		ok := strings.Join(params, ",") == strings.Join(args, ",")
-		c.Check(ok, rule, fmt.Sprintf("serverBuilder › AuthenticatorsFor › adapter closure #%d", k), l.Tree.PosStr(oc.Pos), "func("+strings.Join(params, ", ")+") → Auth("+strings.Join(args, ", ")+")",
-			fmt.Sprintf("the adapter receives (%s) but calls the scheme's function with (%s): credentials reach the user's authenticator in the wrong positions", strings.Join(params, ", "), strings.Join(args, ", ")))
+		if end < 0 {
+			c.Unk(rule, fmt.Sprintf("serverBuilder › AuthenticatorsFor › adapter closure #%d", k), l.Tree.PosStr(oc.Pos), "end of the closure not found")
+			continue
+		}
+		body := l.Text[oc.End : oc.End+end]
+		calls := adapterCallRx.FindAllStringSubmatchIndex(body, -1)
+		ok, got := len(calls) > 0, ""
+		nilOK, nullableCalls := true, 0
+		for _, m := range calls {
+			var args []string
+			for _, a := range strings.Split(body[m[2]:m[3]], ",") {
+				args = append(args, strings.TrimSpace(a))
+			}
+			got = strings.Join(args, ", ")
+			if strings.Join(params, ",") != strings.Join(args, ",") {
+				ok = false
+			}
+			if tmpl.GuardHas(l.GuardsAt(oc.End+m[0]), "PrincipalIsNullable", +1) {
+				nullableCalls++
+				// `<p>, <e> := call` … `if <p> == nil { … return nil, <e>` … `return <p>, <e>`
+				pre := body[:m[0]]
+				am := regexp.MustCompile(`(\w+), (\w+) := $`).FindStringSubmatch(pre)
+				if am == nil {
+					nilOK = false
+					continue
+				}
+				rest := body[m[1]:]
+				chk := regexp.MustCompile(`^\s*if ` + am[1] + ` == nil \{\s*(?://[^\n]*\s*)*return nil, ` + am[2] + `\s*\}\s*return ` + am[1] + `, ` + am[2])
+				if !chk.MatchString(rest) {
+					nilOK = false
+				}
+			}
+		}
+		c.Check(ok, rule, fmt.Sprintf("serverBuilder › AuthenticatorsFor › adapter closure #%d", k), l.Tree.PosStr(oc.Pos), "func("+strings.Join(params, ", ")+") → Auth("+got+")",
+			fmt.Sprintf("the adapter receives (%s) but calls the scheme's function with (%s): credentials reach the user's authenticator in the wrong positions", strings.Join(params, ", "), got))
+		c.Check(nullableCalls == 1 && nilOK, rule, fmt.Sprintf("serverBuilder › AuthenticatorsFor › adapter closure #%d › nil pointer principal stays nil", k), l.Tree.PosStr(oc.Pos), "under .PrincipalIsNullable the result is tested against nil before it is converted to interface{}",
+			"with a pointer principal the adapter converts the authenticator's result to interface{} without testing it: (nil, nil) becomes a non-nil interface holding a nil pointer, the runtime takes the request as authenticated and the handler runs with a nil principal")
 	}
 	if k < 3 {
 		c.Unk(rule, "serverBuilder › AuthenticatorsFor › adapter closures", l.Tree.File, fmt.Sprintf("%d adapter closures found, expected one per scheme kind (3)", k))
